@@ -1004,6 +1004,27 @@ struct Recorder
     vt::Rng rng;
     std::vector<json> out;
     long badShown{0};
+    std::vector<std::vector<double>> anchors;
+
+    void anchor(const double *x)
+    {
+        anchors.emplace_back(x, x + m.n);
+        env.anchor(x);
+    }
+    Env fresh() const
+    {
+        Env e = makeEnv(kind, m.n, m.box, m.make(), p, [](const ob::State *s) { return freeOf(vals(s)); });
+        for (const auto &a : anchors)
+            e.anchor(a.data());
+        return e;
+    }
+    json anchorsJson() const
+    {
+        json j = json::array();
+        for (const auto &a : anchors)
+            j.push_back(hexvec(a.data(), m.n));
+        return j;
+    }
 
     Recorder(const Manifold &m_, char kind_, const Params &p_, int cfg_, unsigned long long seed, bool verbose_)
       : m(m_), kind(kind_), p(p_), cfg(cfg_), verbose(verbose_), rng(mix(seed, 77))
@@ -1199,24 +1220,42 @@ struct Recorder
             out.push_back(rec);
         }
         {
-            const bool cm1 = env.csi->getMotionValidator()->checkMotion(from, to);
-            ob::State *lv = env.css->allocState();
-            env.css->copyState(lv, from);
-            std::pair<ob::State *, double> last(lv, 0.0);
-            const bool cm2 = env.csi->getMotionValidator()->checkMotion(from, to, last);
+            // the atlas grows with every call, so "the geodesic of this motion" is only well defined on equal
+            // atlases: the geodesic and the two motion checks each run on a fresh space holding the anchor
+            // charts only (chart creation is deterministic)
+            bool okFresh = false, cm1 = false, cm2 = false;
+            for (int call = 0; call < 3; ++call)
+            {
+                Env e = kind == 'P' ? env : fresh();
+                ob::State *f = e.state(a), *t = e.state(b);
+                if (call == 0)
+                    okFresh = e.css->discreteGeodesic(f, t, false, nullptr);
+                else if (call == 1)
+                    cm1 = e.csi->getMotionValidator()->checkMotion(f, t);
+                else
+                {
+                    ob::State *lv = e.css->allocState();
+                    e.css->copyState(lv, f);
+                    std::pair<ob::State *, double> last(lv, 0.0);
+                    cm2 = e.csi->getMotionValidator()->checkMotion(f, t, last);
+                    e.css->freeState(lv);
+                }
+                e.css->freeState(f);
+                e.css->freeState(t);
+            }
             for (int form = 1; form <= 2; ++form)
             {
                 json rec = head("Motion");
                 rec["pair"] = cls;
                 rec["form"] = form;
                 rec["cm"] = (form == 1 ? cm1 : cm2) ? 1 : 0;
-                rec["geoOk"] = okNoInterp ? 1 : 0;
+                rec["geoOk"] = okFresh ? 1 : 0;
                 rec["toSat"] = toSat ? 1 : 0;
                 out.push_back(rec);
             }
-            if ((cm1 || cm2) && !okNoInterp)
-                bad("checkMotion", json{{"pair", cls}, {"from", hexvec(a, m.n)}, {"to", hexvec(b, m.n)}, {"cm1", cm1}, {"cm2", cm2}});
-            env.css->freeState(lv);
+            if ((cm1 || cm2) && !okFresh)
+                bad("checkMotion", json{{"pair", cls}, {"from", hexvec(a, m.n)}, {"to", hexvec(b, m.n)}, {"cm1", cm1}, {"cm2", cm2},
+                                        {"anchors", anchorsJson()}});
         }
         env.css->freeState(from);
         env.css->freeState(to);
@@ -1246,7 +1285,7 @@ struct Recorder
         for (int i = 0; i < 2; ++i)
         {
             point(a);
-            env.anchor(a);
+            anchor(a);
         }
         samplers(draws);
         pairs(reps);
@@ -1326,8 +1365,12 @@ static void planRun(const Manifold &m, char kind, const std::string &planner, in
 {
     Params p = paramsFor(seed, cfg);
     // planning needs steps that get somewhere within the budget
+    // (and an atlas whose charts stay local: with rho_s of the size of the manifold every chart is cut
+    // against every other one and time and memory grow quadratically - a cost question, not this property)
     p.delta = std::max(p.delta, 0.05);
-    p.rho = std::max(p.rho, 2 * p.delta);
+    p.rho = std::min(std::max(p.rho, 2 * p.delta), 0.5);
+    p.expl = std::min(p.expl, 0.75);
+    p.tol = std::min(p.tol, 1e-3);
     p.maxCharts = std::max(p.maxCharts, 3u);
     Recorder r(m, kind, p, cfg, mix(seed, 5), false);
     r.env.css->registerDefaultProjection(std::make_shared<FirstCoordinates>(r.env.css));
@@ -1383,6 +1426,7 @@ static void planRun(const Manifold &m, char kind, const std::string &planner, in
     rec["approx"] = approx ? 1 : 0;
     rec["sat"] = flags;
     rec["evals"] = vt::tlcInt(evals);
+    rec["charts"] = kind == 'P' ? 0 : (int)r.env.atlas()->getChartCount();
     out.push_back(rec);
     r.env.css->freeState(start);
     r.env.css->freeState(goal);
@@ -1457,7 +1501,9 @@ static int cmdRecord(const std::string &tracePath, const std::string &tier, int 
         for (const std::string &mf : planMf)
             for (const std::string &pl : plannerNames())
                 for (int c = 0; c < planCfgs; ++c)
-                    all.push_back(Job{true, kind, mf, pl, c, budget, 0, 0});
+                    // (RRT* keeps extending until the budget is spent; on an atlas that means thousands of
+                    // mutually cut charts: quadratic time and memory)
+                    all.push_back(Job{true, kind, mf, pl, c, pl == "RRTstar" ? std::min(budget, 600L) : budget, 0, 0});
 
     auto partPath = [&](std::size_t i) { return workdir + "/part-" + std::to_string(i) + ".ndjson"; };
     std::map<pid_t, std::size_t> running;
@@ -1484,6 +1530,8 @@ static int cmdRecord(const std::string &tracePath, const std::string &tier, int 
             {
                 struct rlimit rl = {300, 300};       // CPU seconds: a hang becomes a record
                 setrlimit(RLIMIT_CPU, &rl);
+                struct rlimit ra = {4UL << 30, 4UL << 30};   // and a runaway allocation a crash record
+                setrlimit(RLIMIT_AS, &ra);
                 std::vector<json> out;
                 {
                     // BAD lines of the child go to its own part file (prefixed), not to the parent's stdout
